@@ -206,7 +206,16 @@ Definition ststep (h : sth) (o : stop) : sth + list Z :=
       else
         (* the property's own demand on the segment list: no identifier is carried by two live
            segments (an identifier seen on disk, even of a partial segment, is never handed out again) *)
-        inr (verdict false (nodupz (map fst segs)) (sh_i h :: -10 :: flatten_pairs ms))
+        let '(_, (hv, ht, hm), _) := sh_cfg h in
+        let readable (f : fstate) (c : bool) := negb c || match f with FComplete | FTrailer => true | _ => false end in
+        let loadable (g : segment) := let '(fh, fv, ft, fm) := sg_files g in
+                                      readable fh true && readable fv hv && readable ft ht && readable fm hm in
+        (* ... and a segment one of whose component files cannot be read in full is never kept as a
+           loaded (cached) index: it must be rejected again on every access, not half-loaded once *)
+        let cached_ok := forallb (fun ic => (snd ic =? 0) ||
+                                           match find (fun g => sg_id g =? fst ic) (s_segs s) with
+                                           | Some g => loadable g | None => true end) segs in
+        inr (verdict false (nodupz (map fst segs) && cached_ok) (sh_i h :: -10 :: flatten_pairs ms))
   | SSearch rq err out =>
       let out := canon64_pairs out in
       match st_search s rq with
